@@ -130,7 +130,7 @@ var portCounter int
 func freePort() int {
 	for i := 0; i < 2000; i++ {
 		portCounter++
-		p := 20000 + (os.Getpid()*131+portCounter*7)%40000
+		p := 10000 + (os.Getpid()*131+portCounter*7)%22000 // below the ephemeral range, which client sockets draw from
 		l, err := net.Listen("tcp", "127.0.0.1:"+strconv.Itoa(p))
 		if err != nil {
 			continue
